@@ -23,3 +23,51 @@ fn c20_u64_ilog2_full() {
     kani::cover!(l == 63);
     kani::cover!(l == 0);
 }
+
+// sanity of the tool chain itself: boolean comparison operators on symbolic bools
+#[kani::proof]
+fn cx_bool_ops() {
+    let a: bool = kani::any();
+    let b: bool = kani::any();
+    kani::assert((a != b) == ((a && !b) || (!a && b)), "DBG ne");
+    kani::assert((a == b) == ((a && b) || (!a && !b)), "DBG eq");
+    kani::assert((a <= b) == (!a || b), "DBG le");
+    kani::assert((a < b) == (!a && b), "DBG lt");
+    let x: u8 = kani::any();
+    let y: usize = kani::any();
+    kani::assert(((x == 0xff) != (y < 32)) == ((x == 0xff && !(y < 32)) || (x != 0xff && y < 32)), "DBG ne2");
+}
+
+// tool-chain probe: memcpy from an element of an array of structs selected by a symbolic index
+#[derive(Clone, Copy)]
+struct CxS {
+    idx: usize,
+    bh: [u8; 64],
+    a: u8,
+    b: u8,
+    c: u8,
+}
+#[kani::proof]
+#[kani::unwind(66)]
+fn cx_memcpy_symbolic_index() {
+    let mut arr = [CxS { idx: 0, bh: [0xff; 64], a: 0, b: 0, c: 0 }; 31];
+    arr[4].bh = kani::any();
+    arr[5].bh = kani::any();
+    arr[4].a = kani::any();
+    arr[5].a = kani::any();
+    let i: usize = kani::any();
+    kani::assume(i == 4 || i == 5);
+    let e = &arr[i];
+    let mut dst = [0u8; 32];
+    if e.a != 0xff {
+        let sz = 32;
+        dst[0..(sz - 1)].clone_from_slice(&e.bh[0..(sz - 1)]);
+        dst[sz - 1] = e.b;
+    } else {
+        let sz = e.idx;
+        kani::assume(sz <= 31);
+        dst[0..sz].clone_from_slice(&e.bh[0..sz]);
+    }
+    kani::assert(e.a == 0xff || dst[0] == e.bh[0], "DBG memcpy symbolic index");
+    kani::assert(e.a == 0xff || dst[30] == e.bh[30], "DBG memcpy symbolic index 30");
+}
